@@ -401,6 +401,62 @@ func init() {
 			})
 			return defBool("ready_to_read_uses_last_applied", n == 1 && good == 1)
 		}},
+		// the single-slot tables refuse a new request whenever the slot is occupied: the busy test is
+		// exactly `pending != nil`, whatever the deadline of the occupant (gc / close / apply look at the
+		// slot only, an overwritten occupant would never get a result)
+		Fact{Name: "single_slot_busy_unconditional", Gen: func() string {
+			ok := true
+			for _, fn := range [][2]string{{"pendingConfigChange", "request"}, {"pendingSnapshot", "request"}, {"pendingRaftLogQuery", "add"}} {
+				fd := root().Func(fn[0], fn[1])
+				found := false
+				ast.Inspect(fd.Body, func(n ast.Node) bool {
+					is, isIf := n.(*ast.IfStmt)
+					if !isIf {
+						return true
+					}
+					busy := false
+					for _, st := range is.Body.List {
+						if r, isRet := st.(*ast.ReturnStmt); isRet {
+							for _, e := range r.Results {
+								if selString(e) == "ErrSystemBusy" {
+									busy = true
+								}
+							}
+						}
+					}
+					if !busy {
+						return true
+					}
+					if be, isBin := is.Cond.(*ast.BinaryExpr); isBin && be.Op.String() == "!=" &&
+						strings.HasSuffix(selString(be.X), ".pending") && selString(be.Y) == "nil" {
+						found = true
+					}
+					return true
+				})
+				ok = ok && found
+			}
+			return defBool("single_slot_busy_unconditional", ok)
+		}},
+		// getRng seeds the proposal key generator of every incarnation of every replica from the pid and
+		// the clock read inside getRng (per call), the shard, the replica and the table shard
+		Fact{Name: "proposal_key_seed_per_incarnation", Gen: func() string {
+			fd := root().Func("", "getRng")
+			pid, nano := false, false
+			ast.Inspect(fd.Body, func(n ast.Node) bool {
+				if c, isCall := n.(*ast.CallExpr); isCall {
+					if selString(c.Fun) == "os.Getpid" {
+						pid = true
+					}
+					if se, isSel := c.Fun.(*ast.SelectorExpr); isSel && se.Sel.Name == "UnixNano" {
+						if in, isIn := se.X.(*ast.CallExpr); isIn && selString(in.Fun) == "time.Now" {
+							nano = true
+						}
+					}
+				}
+				return true
+			})
+			return defBool("proposal_key_seed_per_incarnation", pid && nano)
+		}},
 		// node.close() closes every request table, in this order
 		Fact{Name: "node_close_tables", Gen: func() string {
 			fd := root().Func("node", "close")
